@@ -26,7 +26,7 @@ mvars == << cfg, fr, s, prog, pc, hist, cut, stream >>
 (* Constructors for abstract frames (mk follows the reader's role). *)
 Fr(c, op, fin, len) ==
   [op |-> op, fin |-> fin, r1 |-> FALSE, r2 |-> FALSE, r3 |-> FALSE, mk |-> (c.role = "server"),
-   len |-> len, lk |-> "n", nonmin |-> FALSE, code |-> -1, rs |-> "ok", comp |-> "", plain |-> 0, key |-> ""]
+   len |-> len, lk |-> "n", nonmin |-> FALSE, code |-> -1, rs |-> "ok", comp |-> "", plain |-> 0, key |-> "", short |-> 0]
 CloseFr(c, code, rlen) == [Fr(c, OpClose, TRUE, 2 + rlen) EXCEPT !.code = code]
 EmptyClose(c) == Fr(c, OpClose, TRUE, 0)
 
@@ -53,10 +53,10 @@ Annotate(f0, i, c, sw) ==
       base == [op |-> f.op, fin |-> f.fin, r1 |-> f.r1, r2 |-> f.r2, r3 |-> f.r3, mk |-> f.mk,
                len |-> f.len, lk |-> f.lk, min |-> ~f.nonmin,
                code |-> f.code, utf8 |-> (f.rs # "bad"), plain |-> f.plain, comp |-> (f.comp # "")]
-      huge == f.lk # "n"
+      huge == f.lk # "n" \/ f.short > 0
   IN IF sw THEN base @@ [arr |-> "none", h2 |-> FALSE, hdrOK |-> FALSE, pgot |-> 0]
      ELSE IF c.frame = 0 \/ i < c.frame THEN
-          IF huge THEN base @@ [arr |-> "part", h2 |-> TRUE, hdrOK |-> TRUE, pgot |-> f.len]
+          IF huge THEN base @@ [arr |-> "part", h2 |-> TRUE, hdrOK |-> TRUE, pgot |-> IF f.short > 0 THEN f.short - 1 ELSE f.len]
           ELSE base @@ [arr |-> "full", h2 |-> TRUE, hdrOK |-> TRUE, pgot |-> f.len]
      ELSE IF i > c.frame THEN base @@ [arr |-> "none", h2 |-> FALSE, hdrOK |-> FALSE, pgot |-> 0]
      ELSE CASE c.part = "start" -> base @@ [arr |-> "none", h2 |-> FALSE, hdrOK |-> FALSE, pgot |-> 0]
@@ -74,7 +74,7 @@ Init ==
   /\ cfg \in Cfgs
   /\ \E st \in Streams(cfg) :
        /\ cut \in Cuts(st)
-       /\ fr = [i \in 1..Len(st) |-> Annotate(st[i], i, cut, \E j \in 1..(i - 1) : st[j].lk # "n")]
+       /\ fr = [i \in 1..Len(st) |-> Annotate(st[i], i, cut, \E j \in 1..(i - 1) : st[j].lk # "n" \/ st[j].short > 0)]
        /\ prog \in Progs(st)
        /\ stream = st
   /\ s = S0 /\ pc = 1 /\ hist = << >>
@@ -222,7 +222,7 @@ InvOverLimit ==
 (* C03: a program of ReadMessage calls on a fault-free conformant stream   *)
 (* yields exactly the messages of the stream.                              *)
 AllRM == \A i \in 1..Len(prog) : prog[i].op = "RM"
-Conformant == Bad = 0 /\ cut.frame = 0 /\ \A i \in 1..Len(fr) : fr[i].lk = "n"
+Conformant == Bad = 0 /\ cut.frame = 0 /\ \A i \in 1..Len(fr) : fr[i].lk = "n" /\ fr[i].arr = "full"
 InvDecode ==
   (pc > Len(prog) /\ AllRM /\ Conformant /\ (Lim = 0 \/ AllWithin) /\ cfg.hmode # "err") =>
      LET done == SelectSeq(hist, LAMBDA h : Completed(h))
